@@ -4,6 +4,9 @@
             result; for the generators that promise it by construction (basic, strong) also with `bn_bits(a) == bits`
   MXP-SIB   every modular-exponentiation sibling consults the sign of the exponent on every path that returns a power (negative
             exponents reach the modular inverse), and where it tells the zero exponent apart that path answers 1
+  PRIME-PIPE  the primality predicate accepts only where the trial division and a probabilistic test (Miller-Rabin or
+            Solovay-Strassen) both accepted; a path that skips the probabilistic test must be dominated by a bound on the
+            candidate that is at most the square of the last trial-division prime (constants evaluated from the table)
   ARG-GUARD the functions whose contract excludes part of the integers (square root of a negative number, Legendre/Jacobi
             symbol for an even or non-positive modulus) return normally only where the excluded case was tested false
   (the recoders' buffer contracts are decided under C08: REC-GUARD, BUF-LEN)
@@ -170,15 +173,20 @@ def rule_mxp_sib(ctx, prog, chk):
 
         def edge_gen(node, label, atoms, bk=bk):
             out = []
+            st = engines.CURRENT.edge_state
             for at in atoms:
-                if at[0] == "cmp" and isinstance(at[1], tuple) and ((at[1][0] == "c" and at[1][1] == "bn_sign" and at[1][2] == (bk,))
-                                                                    or (at[1][0] == "m" and at[1][1] == bk and at[1][2] == "sign")):
+                if at[0] == "cmp" and isinstance(at[1], tuple) and at[1][0] == "c" and at[1][1] == "bn_sign" and len(at[1][2]) == 1 \
+                        and (at[1][2][0] == bk or ("ev", "copyof", at[1][2][0]) in st):
+                    out.append(("ev", "signchk"))
+                if at[0] == "cmp" and isinstance(at[1], tuple) and at[1][0] == "m" and at[1][2] == "sign" and (at[1][1] == bk or ("ev", "copyof", at[1][1]) in st):
                     out.append(("ev", "signchk"))
             return out
 
-        def gen(node, s, pre, fn=fn, c=c):
+        def gen(node, s, pre, fn=fn, c=c, bk=bk):
             out = []
             for cl in ir.calls_in(fn, node.el.e):
+                if cl[1] == "bn_copy" and len(cl[2]) == 2 and key(fn, cl[2][1]) == bk:
+                    out.append(("ev", "copyof", key(fn, cl[2][0])))     # its sign is the exponent's sign
                 if cl[1] == "bn_set_dig" and len(cl[2]) == 2 and key(fn, cl[2][0]) == ("v", c) and (ir.peel(fn, cl[2][1]) or [0, 0])[:2] == ["i", 1]:
                     out.append(("ev", "one"))
             return out
@@ -214,6 +222,132 @@ def rule_mxp_sib(ctx, prog, chk):
             chk.fail("MXP-SIB", fn, "sign", "a path returns a power without ever consulting the sign of `%s`: negative exponents yield a^|%s| instead of the inverse power" % (nm, nm), line=c05_line(bad_sign, fn))
         else:
             chk.ok("MXP-SIB", fn, "sign", "every path returning a power branches on the sign of the exponent", line=fn.line)
+    return n
+
+
+PROB_TESTS = ("bn_is_prime_rabin", "bn_is_prime_solov")
+
+
+def const_eval(prog, fn, k):
+    """value of a key built from constants, util_bits_dig and elements of constant integer tables; None if unknown"""
+    if not isinstance(k, tuple):
+        return None
+    if k[0] == "i":
+        return int(k[1])
+    if k[0] == "b" and len(k) >= 4:
+        a, b = const_eval(prog, fn, k[2]), const_eval(prog, fn, k[3])
+        if a is None or b is None:
+            return None
+        try:
+            return {"+": a + b, "-": a - b, "*": a * b, "/": a // b if b else None, "<<": a << b if 0 <= b < 4096 else None, ">>": a >> b if b >= 0 else None}.get(k[1])
+        except Exception:
+            return None
+    if k[0] == "c" and k[1] == "util_bits_dig" and len(k[2]) == 1:
+        a = const_eval(prog, fn, k[2][0])
+        return None if a is None or a < 0 else a.bit_length()
+    if k[0] == "x":
+        idx = const_eval(prog, fn, k[2])
+        base = k[1]
+        if idx is None or not (isinstance(base, tuple) and base[0] == "v"):
+            return None
+        name = fn.vars[base[1]]["n"]
+        lib = prog
+        while getattr(lib, "library", None) is not None:
+            lib = lib.library
+        for pg in (prog, lib):
+            for gl in pg.globals:
+                if gl["n"] == name and gl.get("vals") and 0 <= idx < len(gl["vals"]):
+                    return int(gl["vals"][idx])
+    return None
+
+
+def last_trial_prime(prog):
+    lib = prog
+    while getattr(lib, "library", None) is not None:
+        lib = lib.library
+    fn = lib.get("bn_is_prime_basic")
+    tab = [gl for gl in lib.globals if gl["n"] == "primes" and gl.get("vals") and gl["file"].endswith("bn/relic_bn_prime.c")]
+    if fn is None or not tab:
+        raise AnalysisBroken("PRIME-PIPE: bn_is_prime_basic or its table of trial-division primes not found")
+    vals = [int(v) for v in tab[0]["vals"]]
+    n = None
+    for b in fn.blocks.values():
+        t = getattr(b, "term", None)
+        if t and t.get("c") is not None:
+            c = ir.peel(fn, t["c"])
+            if isinstance(c, list) and c[0] == "b" and c[1] == "<":
+                r = ir.peel(fn, c[3])
+                if isinstance(r, list) and r[0] == "i":
+                    n = r[1]
+    if n is None or not (0 < n <= len(vals)):
+        raise AnalysisBroken("PRIME-PIPE: bound of the trial-division loop not recognised")
+    return vals[n - 1]
+
+
+def rule_prime_pipe(ctx, prog, chk):
+    from . import c05
+    n = 0
+    for fn in prog.all:
+        if base(fn) != "bn_is_prime" or not fn.params or not (fn.rfile.startswith("src/bn/") or "selftest" in fn.file):
+            continue
+        a = fn.params[0]
+        ak = ("v", a)
+        P = last_trial_prime(prog)
+        vv = c05.verdict_var(fn)
+        g = ctx.xcfg(prog, fn)
+        F = Facts(prog, g, mark_thrown=True)
+
+        def call_true(st, names):
+            return any(x[0] == "cmp" and isinstance(x[1], tuple) and x[1][0] == "c" and x[1][1] in names and x[1][2] == (ak,) and engines.entails(x[2], x[3], "!=", 0) for x in st)
+
+        def small(st):
+            """a bound on the candidate that makes trial division conclusive"""
+            for x in st:
+                if x[0] not in ("cmp", "rel") or not isinstance(x[1], tuple) or x[1][0] != "c":
+                    continue
+                rhs = x[3] if x[0] == "cmp" else const_eval(prog, fn, x[3])
+                if rhs is None:
+                    continue
+                if x[1][1] == "bn_bits" and x[1][2] == (ak,) and x[2] in ("<=", "<"):
+                    bits = rhs if x[2] == "<=" else rhs - 1
+                    if (1 << bits) <= P * P:
+                        return True
+                if x[1][1] == "bn_cmp_dig" and len(x[1][2]) == 2 and x[1][2][0] == ak and x[0] == "cmp":
+                    c = const_eval(prog, fn, x[1][2][1])
+                    if c is not None and ((engines.entails(x[2], x[3], "==", -1) and c <= P * P) or (engines.entails(x[2], x[3], "<=", 0) and c < P * P)):
+                        return True
+            return False
+        accepts = []
+        for nd in g.nodes:
+            if nd.kind != "el" or nd.proto:
+                continue
+            e = nd.el.e
+            acc = False
+            if e[0] == "ret" and e[1] is not None:
+                r = ir.peel(fn, e[1])
+                if isinstance(r, list) and r[0] == "i" and r[1] != 0:
+                    acc = True
+                elif isinstance(r, list) and r[0] != "i" and not (r[0] == "v" and r[1] == vv):
+                    acc = True      # returns an expression: judged like an assignment of it
+            elif vv is not None and e[0] == "=" and ir.strip_casts(e[1]) == ["v", vv]:
+                r = ir.peel(fn, e[2])
+                if not (isinstance(r, list) and r[0] == "i" and r[1] == 0):
+                    acc = True
+            if acc:
+                accepts.append(nd)
+        if not accepts:
+            raise AnalysisBroken("PRIME-PIPE: no accepting statement found in %s" % fn.name)
+        for nd in accepts:
+            st = F.IN.get(nd)
+            if st is None or st is engines.UNIVERSE:
+                continue
+            n += 1
+            if not call_true(st, ("bn_is_prime_basic",)):
+                chk.fail("PRIME-PIPE", fn, "accept@%s" % nd.line(), "the candidate is accepted on a path where the trial division was not consulted", line=nd.line())
+            elif call_true(st, PROB_TESTS) or small(st):
+                chk.ok("PRIME-PIPE", fn, "accept@%s" % nd.line(), "accepted only after trial division and a probabilistic test (or below %d^2)" % P, line=nd.line())
+            else:
+                chk.fail("PRIME-PIPE", fn, "accept@%s" % nd.line(), "the candidate is accepted on a path that skips the probabilistic test without a bound that makes trial division conclusive (it must be at most %d^2 = %d, the square of the last trial prime): composites with two larger prime factors are accepted" % (P, P * P), line=nd.line())
     return n
 
 
@@ -258,7 +392,8 @@ def rule_arg_guard(ctx, prog, chk):
 
 def analyse(ctx, prog, chk):
     chk.used_program(prog)
-    return {"gen": rule_gen_post(ctx, prog, chk), "mxp": rule_mxp_sib(ctx, prog, chk), "arg": rule_arg_guard(ctx, prog, chk)}
+    return {"gen": rule_gen_post(ctx, prog, chk), "mxp": rule_mxp_sib(ctx, prog, chk), "arg": rule_arg_guard(ctx, prog, chk),
+            "pipe": rule_prime_pipe(ctx, prog, chk)}
 
 
 def selfcheck(ctx, prog, chk):
@@ -270,3 +405,4 @@ def run(ctx, chk):
     chk.floor("GEN-POST", "generator obligations", c["gen"], 5)
     chk.floor("MXP-SIB", "exponentiation siblings (2 obligations each)", c["mxp"], 6)
     chk.floor("ARG-GUARD", "guard obligations", c["arg"], 4)
+    chk.floor("PRIME-PIPE", "accepting statements of bn_is_prime", c["pipe"], 1)
